@@ -79,9 +79,17 @@ def writer_structure(ctx, py, rule="VCF-WRITE"):
             why = "substitution guarded by `%s` at loop level" % t
         else:
             why = "the '.' substitution is nested in / an alternative of another branch: missing calls are skipped on some paths"
-        ok = ok and "missing" in tgt
-        ms = [a for a in ast.walk(lp) if isinstance(a, ast.Assign) and ast.unparse(a.targets[0]) == "missing"]
-        ok = ok and len(ms) == 1 and ast.unparse(ms[0].value) == "genotypes == -1"
+        # the index of the store is a local defined as `genotypes == -1` (whatever it is called)
+        idx = None
+        t0 = st.targets[0]
+        if isinstance(t0, ast.Subscript):
+            for nme in ast.walk(t0.slice):
+                if isinstance(nme, ast.Name):
+                    ds = [a for a in ast.walk(lp) if isinstance(a, ast.Assign) and any(isinstance(t, ast.Name) and t.id == nme.id for t in a.targets)]
+                    if len(ds) == 1 and isinstance(ds[0].value, ast.Compare) and ast.unparse(ds[0].value.comparators[0]) == "-1" \
+                            and isinstance(ds[0].value.ops[0], ast.Eq):
+                        idx = nme.id
+        ok = ok and idx is not None
     ctx.ob(rule, "missing-substitution", ok, m.loc(stores[0] if stores else lp), why)
     ctx.ob(rule, "genotype-chars", "gt_array[indexes] = genotypes + ord('0')" in src, m.loc(lp), "allele index written as its digit")
     ctx.ob(rule, "sample-mask", "genotypes[sample_mask] = -1" in src and "genotypes = genotypes.copy()" in src, m.loc(lp),
